@@ -55,7 +55,8 @@ class DictOf(Shape):
     def all_fn(self):
         if self._all is None:
             from .shapes import _fresh_name
-            f = z3.RecFunction(_fresh_name(self.name), V.VL, z3.BoolSort())
+            from .shapes import _unique
+            f = z3.RecFunction(_unique(_fresh_name(self.name)), V.VL, z3.BoolSort())
             self._all = f
             l = z3.FreshConst(V.VL, "l")
             p = V.hd(l)
